@@ -435,6 +435,12 @@ Definition scalar_steps (n : nat) : outcome := Val (VSteps (repeat [KF] n)).
 Definition ne_of (n : nat) (o : outcome) : bool :=
   match o with Val v => all_nonempty n v | _ => false end.
 
+Fixpoint mapi {A B : Type} (f : nat -> A -> B) (i : nat) (l : list A) : list B :=
+  match l with
+  | [] => []
+  | x :: t => f i x :: mapi f (S i) t
+  end.
+
 (* the Call case of evaluator.eval, given the argument nodes and their results *)
 Definition call_eval (w : world) (n : nat) (id : Z) (f : string) (sg : fsig)
            (args : list expr) (rs : list argres) : outcome :=
@@ -465,13 +471,12 @@ Definition call_eval (w : world) (n : nat) (id : Z) (f : string) (sg : fsig)
         | Some i =>
             (* all other arguments are evaluated with ev.eval and asserted to be matrices,
                then read as scalars at every step: evalVals[j][0].Floats[step].F *)
-            let os := map (fun jr => if (fst jr =? i)%nat then Val VRange else as_matrix (res_outcome n (snd jr)))
-                          (combine (seq 0 (List.length rs)) rs) in
+            let os := mapi (fun j r => if (j =? i)%nat then Val VRange else as_matrix (res_outcome n r)) 0 rs in
             match first_bad os with
             | Some bad => bad
             | None =>
                 if match nth_error rs i with Some (RMat true) => true | _ => false end then User
-                else if negb (forallb (fun jo => (fst jo =? i)%nat || ne_of n (snd jo)) (combine (seq 0 (List.length os)) os))
+                else if negb (forallb (fun b => b) (mapi (fun j o => (j =? i)%nat || ne_of n o) 0 os))
                 then Internal FIndex
                 else match footprint f sg true (combine args (map (fun _ => true) os)) with
                      | Some ft => Internal ft
